@@ -163,6 +163,18 @@ impl<VM: VMBinding> GCWorker<VM> {
             self.scheduler.work_buckets[bucket].add_prioritized(Box::new(work));
             return;
         }
+        #[cfg(feature = "mmtk_verif")]
+        {
+            let boxed: Box<dyn GCWork<VM>> = Box::new(work);
+            crate::verif::emit_packet(
+                crate::verif::EV_ADD_LOCAL,
+                enum_map::Enum::into_usize(bucket) as u64,
+                boxed.as_ref(),
+            );
+            self.local_work_buffer.push(boxed);
+            return;
+        }
+        #[cfg(not(feature = "mmtk_verif"))]
         self.local_work_buffer.push(Box::new(work));
     }
 
@@ -176,6 +188,18 @@ impl<VM: VMBinding> GCWorker<VM> {
             self.scheduler.work_buckets[bucket].add(work);
             return;
         }
+        #[cfg(feature = "mmtk_verif")]
+        {
+            let boxed: Box<dyn GCWork<VM>> = Box::new(work);
+            crate::verif::emit_packet(
+                crate::verif::EV_ADD_LOCAL,
+                enum_map::Enum::into_usize(bucket) as u64,
+                boxed.as_ref(),
+            );
+            self.local_work_buffer.push(boxed);
+            return;
+        }
+        #[cfg(not(feature = "mmtk_verif"))]
         self.local_work_buffer.push(Box::new(work));
     }
 
@@ -226,6 +250,8 @@ impl<VM: VMBinding> GCWorker<VM> {
             crate::util::rust_util::debug_process_thread_id(),
         );
         WORKER_ORDINAL.with(|x| x.store(self.ordinal, Ordering::SeqCst));
+        #[cfg(feature = "mmtk_verif")]
+        crate::verif::emit(crate::verif::EV_WORKER_RUN, self.ordinal as u64, 0, 0, 0);
         self.scheduler.resolve_affinity(self.ordinal);
         self.tls = tls;
         self.copy = crate::plan::create_gc_worker_context(tls, mmtk);
@@ -254,7 +280,28 @@ impl<VM: VMBinding> GCWorker<VM> {
             std::hint::black_box(unsafe { *(typename.as_ptr()) });
 
             probe!(mmtk, work, typename.as_ptr(), typename.len());
+            #[cfg(feature = "mmtk_verif")]
+            let verif_packet = {
+                crate::verif::fp(crate::verif::FP_AFTER_POLL);
+                let addr = work.as_ref() as *const dyn GCWork<VM> as *const u8 as u64;
+                crate::verif::emit(
+                    crate::verif::EV_PACKET_START,
+                    self.ordinal as u64,
+                    addr,
+                    typename.as_ptr() as u64,
+                    typename.len() as u64,
+                );
+                addr
+            };
             work.do_work_with_stat(&mut self, mmtk);
+            #[cfg(feature = "mmtk_verif")]
+            crate::verif::emit(
+                crate::verif::EV_PACKET_END,
+                self.ordinal as u64,
+                verif_packet,
+                typename.as_ptr() as u64,
+                typename.len() as u64,
+            );
         }
         debug!(
             "Worker exiting. ordinal: {}, {}",
@@ -390,6 +437,8 @@ impl<VM: VMBinding> WorkerGroup<VM> {
             crate::util::rust_util::debug_process_thread_id(),
         );
 
+        #[cfg(feature = "mmtk_verif")]
+        crate::verif::emit(crate::verif::EV_SPAWN, workers.len() as u64, 0, 0, 0);
         // We transfer the ownership of each `GCWorker` instance to a GC thread.
         for worker in workers {
             VM::VMCollection::spawn_gc_thread(tls, GCThreadContext::<VM>::Worker(worker));
@@ -421,6 +470,14 @@ impl<VM: VMBinding> WorkerGroup<VM> {
         };
         let ordinal = worker.ordinal;
         workers.push(worker);
+        #[cfg(feature = "mmtk_verif")]
+        crate::verif::emit(
+            crate::verif::EV_SURRENDER,
+            ordinal as u64,
+            (workers.len() == self.workers_shared.len()) as u64,
+            workers.len() as u64,
+            0,
+        );
         trace!(
             "Worker {} surrendered. ({}/{})",
             ordinal,
